@@ -120,6 +120,13 @@ def cases(tier, seed):
         out.append({"kind": "grid", "prefix": [p0, p1, p2], "tier": tier, "seed": seed})
     for k in range(6):
         out.append({"kind": "generic", "P": al.generic_quat(seed, k).tolist(), "tier": tier, "seed": seed})
+    # nearly (but not exactly) unit quaternions and numerically normalised ones: no 'is unit' short-cut may apply to them
+    # with a tolerance (seeded C01-h)
+    for k in range(4):
+        g = np.asarray(al.generic_quat(seed, 30 + k), float)
+        g = g / np.sqrt(g @ g)
+        for f in (1.0, 1 + 4e-6, 1 - 3e-6, 1 + 2e-9, 1 - 1e-12):
+            out.append({"kind": "generic", "P": (f * g).tolist(), "tier": tier, "seed": seed, "near_unit_factor": f})
     U = unit_letters()
     nb = 24
     for b in range(nb):
